@@ -1377,7 +1377,7 @@ fn main() {
     eng.enumerated_with_class(PartCfg::new("font_table", 0, 0).isolated().heap_cap(512 << 20).shrink_budget(400).exhaustive(true).threads(4), FONT_COUNTS.len() as u64 * 9, font_table, check_font, |c| {
         format!("source={}", FONT_FMT[(c.fmt % 4) as usize])
     });
-    eng.generated_with_class(PartCfg::new("fonts", 3_500, 40_000).isolated().heap_cap(512 << 20).shrink_budget(400).timeout_ms(60_000), font_strategy, check_font, |c| format!("source={}", FONT_FMT[(c.fmt % 4) as usize]));
+    eng.generated_with_class(PartCfg::new("fonts", 5_000, 40_000).isolated().heap_cap(512 << 20).shrink_budget(400).timeout_ms(60_000), font_strategy, check_font, |c| format!("source={}", FONT_FMT[(c.fmt % 4) as usize]));
 
     // (v) macros
     eng.enumerated_with_class(PartCfg::new("macro_bytes", 0, 0).isolated().heap_cap(512 << 20).shrink_budget(400).exhaustive(true).threads(1), 3 * MACRO_TABLE_BASE, macro_table, check_macro, |c| format!("source={}", macro_src(c)));
